@@ -377,6 +377,15 @@ where
                         payload: request,
                     } => {
                         if let Some(data) = this.data.clone() {
+                            if *this.protocol == Protocols::GraphQLWS
+                                && this.streams.contains_key(&id)
+                            {
+                                *this.close = true;
+                                return Poll::Ready(Some(WsMessage::Close(
+                                    4409,
+                                    format!("Subscriber for {} already exists", id),
+                                )));
+                            }
                             this.streams.insert(
                                 id,
                                 Box::pin(this.executor.execute_stream(request, Some(data))),
